@@ -16,12 +16,15 @@ import (
 // check-and-set.
 //
 // The real kv-v2 backend is mounted in the simulated Core. 2-4 client tasks
-// issue write (no cas / cas=v), read (latest / version v), delete, undelete,
-// destroy and metadata-delete on 1-2 paths, interleaved at storage-operation
-// and lock-hand-off granularity; cache on/off, transactional and plain disk;
-// max_versions and cas_required are set sequentially before the race; in
-// fault runs single storage operations inside requests fail (err-na).
-// Every written datum is unique.
+// issue write (no cas / cas=v), patch (no cas / cas=v), read (latest / version
+// v), delete, undelete, destroy, metadata update (max_versions, cas_required,
+// custom_metadata) and metadata-delete on 1-2 paths, interleaved at
+// storage-operation and lock-hand-off granularity; cache on/off, transactional
+// and plain disk; max_versions and cas_required are also set sequentially
+// before the race, on the key or in the engine configuration; in fault runs
+// single storage operations inside requests fail (err-na). Every written
+// datum is unique. A sequential tail exercises delete_version_after on the
+// simulated clock.
 //
 // Oracle: the recorded history (invoke / return stamped with a global event
 // counter) is checked with porcupine against a sequential model per path:
@@ -40,14 +43,19 @@ type kvVer struct {
 }
 
 type kvState struct {
-	Cur      int            `json:"c"`
-	Vers     map[int]*kvVer `json:"v"`
-	Max      int            `json:"m"`
-	CasReq   bool           `json:"r"`
+	Cur    int            `json:"c"`
+	Vers   map[int]*kvVer `json:"v"`
+	Max    int            `json:"m"`
+	CasReq bool           `json:"r"`
+	Exists bool           `json:"e,omitempty"` // key metadata exists
+	Custom string         `json:"u,omitempty"` // custom_metadata["m"]
+	// engine configuration (constant during a run)
+	CfgMax int  `json:"M,omitempty"`
+	CfgCas bool `json:"R,omitempty"`
 }
 
 func (s kvState) clone() kvState {
-	n := kvState{Cur: s.Cur, Max: s.Max, CasReq: s.CasReq, Vers: map[int]*kvVer{}}
+	n := kvState{Cur: s.Cur, Max: s.Max, CasReq: s.CasReq, Exists: s.Exists, Custom: s.Custom, CfgMax: s.CfgMax, CfgCas: s.CfgCas, Vers: map[int]*kvVer{}}
 	for k, v := range s.Vers {
 		c := *v
 		n.Vers[k] = &c
@@ -61,20 +69,56 @@ func (s kvState) key() string {
 }
 
 type kvIn struct {
-	Op      string // write read delete undelete destroy purge
+	Op      string // write patch read delete undelete destroy purge meta
 	Path    string
-	Cas     int  // -1: none
-	Version int  // 0: latest
+	Cas     int // -1: none
+	Version int // 0: latest
 	Data    string
+	PKey    string // patch: the field that is set to Data
+	// meta: -1 = not part of the request
+	MaxV   int
+	CasR   int
+	Custom string
 }
 
 type kvOut struct {
-	Err       string // "" | cas | other
+	Err       string // "" | cas | notfound | other
 	Found     bool
-	Data      string
+	Data      string // canonical rendering of the data map
 	Deleted   bool
 	Destroyed bool
 	Version   int
+	Custom    string
+}
+
+// kvCanon renders a data map canonically ("a=1,b=2").
+func kvCanon(m map[string]string) string {
+	var ks []string
+	for k := range m {
+		ks = append(ks, k)
+	}
+	sort.Strings(ks)
+	var sb strings.Builder
+	for i, k := range ks {
+		if i > 0 {
+			sb.WriteByte(',')
+		}
+		sb.WriteString(k + "=" + m[k])
+	}
+	return sb.String()
+}
+
+func kvParse(c string) map[string]string {
+	m := map[string]string{}
+	if c == "" {
+		return m
+	}
+	for _, kv := range strings.Split(c, ",") {
+		if i := strings.IndexByte(kv, '='); i > 0 {
+			m[kv[:i]] = kv[i+1:]
+		}
+	}
+	return m
 }
 
 // kvSteps returns every state the register may be in after the operation.
@@ -83,7 +127,7 @@ type kvOut struct {
 // effect (e.g. destroy marks the version, then removes its data).
 func kvSteps(st kvState, in kvIn, out kvOut) []kvState {
 	if out.Err == "other" {
-		if in.Op == "write" || in.Op == "read" {
+		if in.Op == "write" || in.Op == "patch" || in.Op == "read" {
 			return []kvState{st}
 		}
 		ok := out
@@ -105,23 +149,40 @@ func kvStep(st kvState, in kvIn, out kvOut) (bool, kvState) {
 		return true, st
 	}
 	switch in.Op {
-	case "write":
+	case "write", "patch":
+		if in.Op == "patch" && !st.Exists {
+			return out.Err == "notfound", st
+		}
 		casOK := true
 		if in.Cas >= 0 {
 			casOK = in.Cas == st.Cur
-		} else if st.CasReq {
+		} else if st.CasReq || st.CfgCas {
 			casOK = false
 		}
 		if !casOK {
 			return out.Err == "cas", st
 		}
+		data := "v=" + in.Data
+		if in.Op == "patch" {
+			cur := st.Vers[st.Cur]
+			if cur == nil || cur.Deleted || cur.Destroyed {
+				return out.Err == "notfound", st
+			}
+			m := kvParse(cur.Data)
+			m[in.PKey] = in.Data
+			data = kvCanon(m)
+		}
 		if out.Err != "" {
 			return false, st
 		}
 		n := st.clone()
+		n.Exists = true
 		n.Cur++
-		n.Vers[n.Cur] = &kvVer{Data: in.Data}
+		n.Vers[n.Cur] = &kvVer{Data: data}
 		max := n.Max
+		if n.CfgMax > max {
+			max = n.CfgMax
+		}
 		if max == 0 {
 			max = 10
 		}
@@ -144,9 +205,9 @@ func kvStep(st kvState, in kvIn, out kvOut) (bool, kvState) {
 			return !out.Found, st
 		}
 		if ver.Destroyed || ver.Deleted {
-			return out.Found && out.Data == "" && out.Version == v && out.Deleted == ver.Deleted && out.Destroyed == ver.Destroyed, st
+			return out.Found && out.Data == "" && out.Version == v && out.Deleted == ver.Deleted && out.Destroyed == ver.Destroyed && out.Custom == st.Custom, st
 		}
-		return out.Found && out.Data == ver.Data && out.Version == v && !out.Deleted && !out.Destroyed, st
+		return out.Found && out.Data == ver.Data && out.Version == v && !out.Deleted && !out.Destroyed && out.Custom == st.Custom, st
 	case "delete":
 		if out.Err != "" {
 			return false, st
@@ -183,7 +244,23 @@ func kvStep(st kvState, in kvIn, out kvOut) (bool, kvState) {
 		if out.Err != "" {
 			return false, st
 		}
-		n := kvState{Vers: map[int]*kvVer{}}
+		n := kvState{Vers: map[int]*kvVer{}, CfgMax: st.CfgMax, CfgCas: st.CfgCas}
+		return true, n
+	case "meta":
+		if out.Err != "" {
+			return false, st
+		}
+		n := st.clone()
+		n.Exists = true
+		if in.MaxV >= 0 {
+			n.Max = in.MaxV
+		}
+		if in.CasR >= 0 {
+			n.CasReq = in.CasR == 1
+		}
+		if in.Custom != "" {
+			n.Custom = in.Custom
+		}
 		return true, n
 	}
 	return false, st
@@ -234,6 +311,9 @@ func runC14(rc *RunCtx) {
 	faulty := tp.Pick(4) == 3
 	maxVersions := []int{0, 2, 3}[tp.Pick(3)]
 	casRequired := tp.Pick(4) == 3
+	// where the sequential pre-race settings live: on the key's metadata or in the engine configuration
+	inEngineCfg := tp.Pick(3) == 2
+	rc.Cfg("settings_in_engine_config", inEngineCfg)
 	rc.Cfg("cache_off", opts.DisableCache)
 	rc.Cfg("plain_disk", opts.Plain)
 	rc.Cfg("tasks", nTasks)
@@ -260,11 +340,18 @@ func runC14(rc *RunCtx) {
 	}
 	paths := []string{"p0", "p1"}[:nPaths]
 	// the model's initial state mirrors the sequential setup
-	init0 := kvState{Vers: map[int]*kvVer{}, Max: maxVersions, CasReq: casRequired}
-	for _, p := range paths {
-		if maxVersions > 0 || casRequired {
-			_, err := h.RootWrite("v2/metadata/"+p, map[string]any{"max_versions": maxVersions, "cas_required": casRequired})
+	init0 := kvState{Vers: map[int]*kvVer{}}
+	if maxVersions > 0 || casRequired {
+		if inEngineCfg {
+			_, err := h.RootWrite("v2/config", map[string]any{"max_versions": maxVersions, "cas_required": casRequired})
 			must(err)
+			init0.CfgMax, init0.CfgCas = maxVersions, casRequired
+		} else {
+			for _, p := range paths {
+				_, err := h.RootWrite("v2/metadata/"+p, map[string]any{"max_versions": maxVersions, "cas_required": casRequired})
+				must(err)
+			}
+			init0.Max, init0.CasReq, init0.Exists = maxVersions, casRequired, true
 		}
 	}
 	evt := 0
@@ -284,6 +371,24 @@ func runC14(rc *RunCtx) {
 				d["options"] = map[string]any{"cas": in.Cas}
 			}
 			r = Req{Op: logical.UpdateOperation, Path: "v2/data/" + in.Path, Token: h.Root, Data: d}
+		case "patch":
+			d := map[string]any{"data": map[string]any{in.PKey: in.Data}}
+			if in.Cas >= 0 {
+				d["options"] = map[string]any{"cas": in.Cas}
+			}
+			r = Req{Op: logical.PatchOperation, Path: "v2/data/" + in.Path, Token: h.Root, Data: d}
+		case "meta":
+			d := map[string]any{}
+			if in.MaxV >= 0 {
+				d["max_versions"] = in.MaxV
+			}
+			if in.CasR >= 0 {
+				d["cas_required"] = in.CasR == 1
+			}
+			if in.Custom != "" {
+				d["custom_metadata"] = map[string]any{"m": in.Custom}
+			}
+			r = Req{Op: logical.UpdateOperation, Path: "v2/metadata/" + in.Path, Token: h.Root, Data: d}
 		case "read":
 			r = Req{Op: logical.ReadOperation, Path: "v2/data/" + in.Path, Token: h.Root}
 			if in.Version > 0 {
@@ -318,8 +423,10 @@ func runC14(rc *RunCtx) {
 			out.Err = "other"
 		default:
 			data := map[string]any{}
+			status := 0
 			if resp != nil {
 				data = resp.Data
+				status = toInt(resp.Data[logical.HTTPStatusCode])
 				if raw, ok := resp.Data[logical.HTTPRawBody]; ok {
 					// 404 with metadata: {"data": {...}} wrapped as raw body
 					var body struct {
@@ -337,18 +444,35 @@ func runC14(rc *RunCtx) {
 			switch in.Op {
 			case "write":
 				out.Version = toInt(data["version"])
+			case "patch":
+				if status == 404 {
+					out.Err = "notfound"
+				} else {
+					out.Version = toInt(data["version"])
+				}
 			case "read":
 				if resp != nil && data != nil {
 					out.Found = true
 					if md, ok := data["metadata"].(map[string]any); ok {
 						out.Version = toInt(md["version"])
-						if dt, _ := md["deletion_time"].(string); dt != "" {
+						// a deletion time in the future (delete_version_after) is not a deletion yet
+						if dt, _ := md["deletion_time"].(string); dt != "" && status == 404 {
 							out.Deleted = true
 						}
 						out.Destroyed, _ = md["destroyed"].(bool)
+						switch cm := md["custom_metadata"].(type) {
+						case map[string]string:
+							out.Custom = cm["m"]
+						case map[string]any:
+							out.Custom, _ = cm["m"].(string)
+						}
 					}
 					if dd, ok := data["data"].(map[string]any); ok && dd != nil {
-						out.Data, _ = dd["v"].(string)
+						m := map[string]string{}
+						for k, v := range dd {
+							m[k] = fmt.Sprint(v)
+						}
+						out.Data = kvCanon(m)
 					}
 				}
 			}
@@ -371,8 +495,31 @@ func runC14(rc *RunCtx) {
 		total += n
 		for j := 0; j < n; j++ {
 			p := paths[tp.Pick(len(paths))]
-			in := kvIn{Path: p, Cas: -1}
-			switch tp.Pick(12) {
+			in := kvIn{Path: p, Cas: -1, MaxV: -1, CasR: -1}
+			switch tp.Pick(16) {
+			case 12, 13:
+				in.Op = "patch"
+				nval++
+				in.Data = fmt.Sprintf("q%d", nval)
+				in.PKey = []string{"v", "a", "b"}[tp.Pick(3)]
+				if tp.Pick(3) == 2 {
+					in.Cas = tp.Pick(4)
+				}
+			case 14, 15:
+				in.Op = "meta"
+				switch tp.Pick(4) {
+				case 0:
+					in.MaxV = []int{0, 2, 3}[tp.Pick(3)]
+				case 1:
+					in.CasR = tp.Pick(2)
+				case 2:
+					nval++
+					in.Custom = fmt.Sprintf("c%d", nval)
+				default:
+					in.MaxV = []int{0, 2, 3}[tp.Pick(3)]
+					nval++
+					in.Custom = fmt.Sprintf("c%d", nval)
+				}
 			case 0, 1, 2:
 				in.Op = "write"
 				nval++
@@ -397,7 +544,7 @@ func runC14(rc *RunCtx) {
 				in.Op = "destroy"
 				in.Version = 1 + tp.Pick(3)
 			case 11:
-				if tp.Pick(3) == 0 && !casRequired && maxVersions == 0 {
+				if tp.Pick(3) == 0 {
 					in.Op = "purge"
 				} else {
 					in.Op = "read"
@@ -428,9 +575,9 @@ func runC14(rc *RunCtx) {
 	}
 	// a final sequential read of every version pins the end state
 	for _, p := range paths {
-		doOp(99, "final", kvIn{Op: "read", Path: p, Cas: -1})
+		doOp(99, "final", kvIn{Op: "read", Path: p, Cas: -1, MaxV: -1, CasR: -1})
 		for v := 1; v <= 4; v++ {
-			doOp(99, "final", kvIn{Op: "read", Path: p, Cas: -1, Version: v})
+			doOp(99, "final", kvIn{Op: "read", Path: p, Cas: -1, MaxV: -1, CasR: -1, Version: v})
 		}
 	}
 	// direct oracle besides linearizability: successful writes between two
@@ -446,12 +593,12 @@ func runC14(rc *RunCtx) {
 				}
 			}
 		}
-		if in.Op != "write" || out.Err != "" {
+		if (in.Op != "write" && in.Op != "patch") || out.Err != "" {
 			continue
 		}
 		for j, p := range ops {
 			pin := p.Input.(kvIn)
-			if j != i && pin.Op == "write" && pin.Path == in.Path && p.Call < o.Return && o.Call < p.Return {
+			if j != i && (pin.Op == "write" || pin.Op == "patch") && pin.Path == in.Path && p.Call < o.Return && o.Call < p.Return {
 				overlapW++
 				break
 			}
@@ -480,6 +627,93 @@ func runC14(rc *RunCtx) {
 	}
 	rc.Res.Sample = map[string]any{"history": tail(hist, 24)}
 	rc.Res.StateSig = fmt.Sprintf("%d ops", len(ops))
+	if s.Viol == nil && tp.Pick(3) == 0 {
+		c14DeleteVersionAfter(rc, h, doOp, &ops, tp.Pick(2) == 1)
+	}
+}
+
+// c14DeleteVersionAfter: sequential history on a fresh path with
+// delete_version_after (on the key, or in the engine configuration) and the
+// simulated clock: a version reads back its data until creation + dva, is
+// reported deleted afterwards, and the expiry of one version leaves the
+// others alone; patch refuses an expired latest version; undelete restores
+// exactly the version it names.
+func c14DeleteVersionAfter(rc *RunCtx, h *CoreH, doOp func(int, string, kvIn), ops *[]porcupine.Operation, engineLevel bool) {
+	s := rc.S
+	const dva = 30 * time.Second
+	path := "dva"
+	if engineLevel {
+		path = "dvae"
+		// min(mount, key) applies: the key asks for longer, the mount's bound wins
+		if _, err := h.RootWrite("v2/config", map[string]any{"delete_version_after": "30s"}); err != nil {
+			panic(err)
+		}
+		if _, err := h.RootWrite("v2/metadata/"+path, map[string]any{"delete_version_after": "2h", "max_versions": 10}); err != nil {
+			panic(err)
+		}
+	} else if _, err := h.RootWrite("v2/metadata/"+path, map[string]any{"delete_version_after": "30s", "max_versions": 10}); err != nil {
+		panic(err)
+	}
+	s.Probe("dva_tail")
+	last := func() (kvIn, kvOut) {
+		o := (*ops)[len(*ops)-1]
+		return o.Input.(kvIn), o.Output.(kvOut)
+	}
+	rd := func(v int) kvOut {
+		doOp(98, "dva", kvIn{Op: "read", Path: path, Cas: -1, MaxV: -1, CasR: -1, Version: v})
+		_, out := last()
+		return out
+	}
+	expect := func(what string, v int, wantData string, wantDeleted bool) bool {
+		out := rd(v)
+		ok := out.Err == "" && out.Found && out.Deleted == wantDeleted && out.Data == wantData && !out.Destroyed
+		if !ok {
+			s.Violate("C14", "delete-version-after-mismatch", map[string]any{"engine_level": engineLevel, "step": what},
+				"delete_version_after=%s (%s): %s: read version %d returned %+v, want data=%q deleted=%v", dva, map[bool]string{false: "key metadata", true: "engine config (key asks for 2h)"}[engineLevel], what, v, out, wantData, wantDeleted)
+		}
+		return ok
+	}
+	wr := func(op, data, pkey string) kvOut {
+		doOp(98, "dva", kvIn{Op: op, Path: path, Cas: -1, MaxV: -1, CasR: -1, Data: data, PKey: pkey})
+		_, out := last()
+		return out
+	}
+	if o := wr("write", "t1", ""); o.Err != "" || o.Version != 1 {
+		return // cas_required in the engine configuration etc.: not this tail's business
+	}
+	time.Sleep(10 * time.Second)
+	if o := wr("write", "t2", ""); o.Err != "" || o.Version != 2 {
+		return
+	}
+	if !expect("before expiry", 1, "v=t1", false) || !expect("before expiry", 2, "v=t2", false) {
+		return
+	}
+	time.Sleep(21 * time.Second) // t1 + 31 s, t2 + 21 s
+	if !expect("first version expired", 1, "", true) || !expect("second version not yet expired", 2, "v=t2", false) {
+		return
+	}
+	if o := wr("patch", "t3", "a"); o.Err != "" || o.Version != 3 {
+		s.Violate("C14", "delete-version-after-mismatch", map[string]any{"engine_level": engineLevel, "step": "patch live latest"}, "patch of the unexpired latest version failed: %+v", o)
+		return
+	}
+	if !expect("patched", 3, "a=t3,v=t2", false) {
+		return
+	}
+	time.Sleep(31 * time.Second)
+	if !expect("all expired", 0, "", true) || !expect("all expired", 2, "", true) {
+		return
+	}
+	if o := wr("patch", "t4", "a"); o.Err != "notfound" {
+		s.Violate("C14", "delete-version-after-mismatch", map[string]any{"engine_level": engineLevel, "step": "patch expired latest"}, "patch of an expired latest version was not refused: %+v", o)
+		return
+	}
+	doOp(98, "dva", kvIn{Op: "undelete", Path: path, Cas: -1, MaxV: -1, CasR: -1, Version: 2})
+	if _, o := last(); o.Err != "" {
+		return
+	}
+	expect("undeleted version is back", 2, "v=t2", false)
+	expect("undelete leaves the other versions alone", 1, "", true)
+	expect("undelete leaves the other versions alone", 3, "", true)
 }
 
 func toInt(v any) int {
